@@ -355,8 +355,17 @@ var (
 	recorded    []string
 )
 
-// Point marks a step of interest.
+// Point marks a step of interest: a schedule point for managed threads and a
+// crash point when armed.
 func Point(label string) {
+	CrashPoint(label)
+	if atomic.LoadInt32(&nManaged) != 0 {
+		Yield(nil, label)
+	}
+}
+
+// CrashPoint is a crash point only (no schedule point).
+func CrashPoint(label string) {
 	if atomic.LoadInt32(&crashArmed) != 0 {
 		n := atomic.AddInt64(&pointCount, 1)
 		if atomic.LoadInt32(&recording) != 0 {
@@ -369,9 +378,6 @@ func Point(label string) {
 			_ = syscall.Kill(os.Getpid(), syscall.SIGKILL)
 			select {}
 		}
-	}
-	if atomic.LoadInt32(&nManaged) != 0 {
-		Yield(nil, label)
 	}
 }
 
@@ -402,7 +408,7 @@ func DisarmCrash() (int64, []string) {
 type pw struct{ w io.Writer }
 
 func (p pw) Write(b []byte) (int, error) {
-	Point("W.Write")
+	CrashPoint("W.Write") // file writes of one part do not interact with other threads: crash point only
 	return p.w.Write(b)
 }
 
